@@ -258,6 +258,11 @@ var symRe = regexp.MustCompile(`(tag|ub\$S|bx\$S|S|mk|fn|f)\$[A-Za-z0-9_.$]+`)
 // demandSpecSymbols declares type-dependent symbols the spec text refers to (tags, boxes, struct sorts).
 func (g *Gen) demandSpecSymbols(spec string) {
 	seen := map[string]bool{}
+	for _, srt := range []string{"Int", "F64", "Bool", "String", "Slice"} {
+		if strings.Contains(spec, "ub$"+srt) || strings.Contains(spec, "bx$"+srt) {
+			g.d.boxOfSort(srt)
+		}
+	}
 	for _, m := range symRe.FindAllString(spec, -1) {
 		if seen[m] {
 			continue
